@@ -90,6 +90,23 @@ def spell(sat, how):
 
 REG = {-2: 'ForbiddenBySafeModeError', -5: 'InvalidAddressOrKeyError', -8: 'InvalidParameterError', -25: 'VerifyError',
        -26: 'VerifyRejectedError', -27: 'VerifyAlreadyInChainError', -28: 'InWarmupError'}
+def registered():
+    """code -> error class, read from the classes themselves (RPC_ERROR_CODE on every JSONRPCError subclass), NOT from the
+    library's dispatch table: a class added by a later version is honoured, the seven documented ones must be there"""
+    out = {}
+    stack = list(RPC.JSONRPCError.__subclasses__())
+    while stack:
+        c = stack.pop()
+        code = c.__dict__.get('RPC_ERROR_CODE')
+        if isinstance(code, int):
+            out.setdefault(code, c)
+        stack.extend(c.__subclasses__())
+    for code, name in REG.items():
+        if code not in out or out[code].__name__ != name:
+            raise Violation('error/registry-%d' % code, 'no error class %s with RPC_ERROR_CODE %d' % (name, code))
+    return out
+
+
 INDEXERR = {('getblock', -5), ('getblockheader', -5), ('getrawtransaction', -5), ('gettransaction', -5), ('getblockhash', -8)}
 
 
@@ -352,7 +369,7 @@ class World:
             try:
                 r = fns[method]()
             except RPC.JSONRPCError as e:
-                want = getattr(RPC, REG[exp_code]) if exp_code in REG else RPC.JSONRPCError
+                want = registered().get(exp_code, RPC.JSONRPCError)
                 if type(e) is not want:
                     raise Violation('error/class-%d' % exp_code, '%s: error reply %s (code %d) raised %s, registered class is %s' % (
                         method, shape, exp_code, type(e).__name__, want.__name__))
